@@ -624,7 +624,7 @@ func c06protect(f func()) (panicked, aborted bool, class, frame string) {
 
 // ---- generation -------------------------------------------------------------
 
-var c06tokenPool = []string{"a", "ab", "abc", "abd", "b", "ba", "c", "*", "a:b", "a:c"}
+var c06tokenPool = []string{"a", "ab", "abc", "abd", "b", "ba", "c", "*", "a:b", "a:c", "a\ufffd", "a\U0001F600x", "ab\U0010ffff"}
 var c06prefixPool = []string{"", "a", "ab", "abc", "a:", "b", "bb", "c", "zz", "aa", "*"}
 
 func c06genIDPoints(r *core.R, e *c06env, unknownNS bool) (universe []c08id) {
